@@ -169,13 +169,15 @@ PROPS["C20"] = {
               H("ZZ_C20_Waiters", params={"WAITERS": 2, "WB": 2}, reach=["all-waiters-returned"], bounds="2 waiters, batch size 2 (markers across batch boundaries)"),
               H("ZZ_C20_Waiters", params={"WAITERS": 1, "PRE": 1}, reach=["all-waiters-returned"], bounds="1 waiter, preemptions 1 (a wake-up delivered before the batch is applied is observable)"),
               H("ZZ_C20_Waiters", params={"WAITERS": 2, "PRE": 1}, reach=["all-waiters-returned"], bounds="2 waiters, preemptions 1"),
-              H("ZZ_C20_WaitWithWriter", params={"PRE": 1}, reach=["all-returned"], bounds="1 writer x3 + 2 waiters, preemptions 1")],
+              H("ZZ_C20_WaitWithWriter", params={"PRE": 1}, reach=["all-returned"], bounds="1 writer x3 + 2 waiters, preemptions 1"),
+              H("ZZ_C20_BarrierWithBusyQueue", params={"PRE": 2}, reach=["all-returned"], bounds="Set, Set, Delete, Wait on one goroutine while another keeps the queue busy (3 writes); preemptions 2")],
     "thorough": [H("ZZ_C20_Waiters", params={"WAITERS": 2}, reach=["all-waiters-returned"]),
                  H("ZZ_C20_Waiters", params={"WAITERS": 2, "WB": 2}, reach=["all-waiters-returned"]),
                  H("ZZ_C20_Waiters", params={"WAITERS": 3, "WRITES": 2}, reach=["all-waiters-returned"], bounds="3 waiters"),
                  H("ZZ_C20_Waiters", params={"WAITERS": 2, "PRE": 2}, reach=["all-waiters-returned"], bounds="2 waiters, preemptions 2"),
                  H("ZZ_C20_Waiters", params={"WAITERS": 3, "WRITES": 2, "PRE": 1}, reach=["all-waiters-returned"], bounds="3 waiters, preemptions 1"),
-                 H("ZZ_C20_WaitWithWriter", params={"PRE": 1}, reach=["all-returned"])],
+                 H("ZZ_C20_WaitWithWriter", params={"PRE": 1}, reach=["all-returned"]),
+                 H("ZZ_C20_BarrierWithBusyQueue", params={"PRE": 2, "BUSY": 4, "WB": 2}, reach=["all-returned"], bounds="busy writer x4, batch size 2, preemptions 2")],
 }
 
 def _c10(pre):
@@ -315,7 +317,8 @@ PROPS["C16"] = {
     "assumptions": ["hybrid Get is outside the property (stats are in-memory only)"],
     "outside_bound": ["more than 2 concurrent counter updates"],
     "quick": [H("ZZ_C16_GetCounts", reach=["get-done"]), H("ZZ_C16_GetCounts", params={"LOADING": 1}, reach=["get-done"]),
-              H("ZZ_C16_Counter", params={"PRE": 2}, reach=["adds-done"]), H("ZZ_C16_Views", reach=["views-done"])],
+              H("ZZ_C16_Counter", params={"PRE": 2}, reach=["adds-done"]), H("ZZ_C16_Views", reach=["views-done"]),
+              H("ZZ_C04_LateUpdate", reach=["three-ticks"], bounds="EstimatedSize after a cost and TTL update that is applied after its deadline")],
     "thorough": [H("ZZ_C16_GetCounts", reach=["get-done"]), H("ZZ_C16_GetCounts", params={"LOADING": 1}, reach=["get-done"]),
                  H("ZZ_C16_Counter", params={"PRE": 4, "POOLMODE": 2}, reach=["adds-done"]), H("ZZ_C16_Views", params={"N": 5}, reach=["views-done"])],
 }
@@ -368,8 +371,16 @@ PROPS["C14"] = {
               H("ZZ_C14_Seq", params={"N": 3, "PROB": 2}, reach=["sequence-done", "hit"], solver="cvc5", bounds="N=3 calls, admission probability symbolic in [0,1]"),
               H("ZZ_C14_StalePromoted", reach=["evicted-again"]), H("ZZ_C14_DeleteRace", params={"PRE": 1}, reach=["settled"]), H("ZZ_C14_Expired", reach=["read"]),
               H("ZZ_C14_DeleteVsGet", params={"PRE": 1}, reach=["settled"], bounds="hybrid Delete of a demoted key racing a hybrid Get, preemptions 1"),
-              H("ZZ_C14_HybridLoadingExpiry", reach=["read"], bounds="hybrid loading cache: promoted entry, read time symbolic")],
-    "thorough": [H("ZZ_C14_DeleteVsGet", params={"PRE": 2}, reach=["settled"]), H("ZZ_C14_HybridLoadingExpiry", reach=["read"]), H("ZZ_C14_Seq", params={"N": 5, "FULL": 1}, reach=["sequence-done", "hit"]), H("ZZ_C14_Seq", params={"N": 4, "PROB": 2}, reach=["sequence-done", "hit"], solver="cvc5"),
+              H("ZZ_C14_HybridLoadingExpiry", reach=["read"], bounds="hybrid loading cache: promoted entry, read time symbolic"),
+              H("ZZ_C14_StaleAfterExpiry", reach=["read"], bounds="older copy in the secondary tier, newer value with TTL in memory, read time symbolic in [0,2^31] ns, before and after collection"),
+              H("ZZ_C14_StaleAfterLostDemotion", params={"FULL": 1}, reach=["evicted-again"], bounds="newer value evicted with the hand-off queue possibly full"),
+              H("ZZ_C14_StaleAfterLostDemotion", params={"PROB": 2}, reach=["evicted-again"], solver="cvc5", bounds="admission probability symbolic in [0,1]"),
+              H("ZZ_C14_SetVsGet", params={"PRE": 1}, reach=["both-returned"], bounds="hybrid Get that missed in memory racing a Set of the same key, preemptions 1"),
+              H("ZZ_C14_UpdateVsEvict", params={"PRE": 1}, reach=["both-returned"], bounds="overwrite of a promoted entry racing its eviction, preemptions 1")],
+    "thorough": [H("ZZ_C14_StaleAfterExpiry", reach=["read"]), H("ZZ_C14_StaleAfterLostDemotion", params={"FULL": 1}, reach=["evicted-again"]),
+                 H("ZZ_C14_StaleAfterLostDemotion", params={"PROB": 2}, reach=["evicted-again"], solver="cvc5"),
+                 H("ZZ_C14_SetVsGet", params={"PRE": 2}, reach=["both-returned"]), H("ZZ_C14_UpdateVsEvict", params={"PRE": 2}, reach=["both-returned"]),
+                 H("ZZ_C14_DeleteVsGet", params={"PRE": 2}, reach=["settled"]), H("ZZ_C14_HybridLoadingExpiry", reach=["read"]), H("ZZ_C14_Seq", params={"N": 5, "FULL": 1}, reach=["sequence-done", "hit"]), H("ZZ_C14_Seq", params={"N": 4, "PROB": 2}, reach=["sequence-done", "hit"], solver="cvc5"),
                  H("ZZ_C14_Seq", params={"N": 4, "PROB": 0}, reach=["sequence-done", "hit"]), H("ZZ_C14_Seq", params={"N": 4, "WORKERS": 2}, reach=["sequence-done", "hit"]),
                  H("ZZ_C14_Seq", params={"N": 5}, reach=["sequence-done", "hit", "promoted-from-secondary"], bounds="N=5 calls"),
                  H("ZZ_C14_StalePromoted", reach=["evicted-again"]), H("ZZ_C14_DeleteRace", params={"PRE": 2}, reach=["settled"]), H("ZZ_C14_Expired", reach=["read"])],
